@@ -8,20 +8,28 @@ import (
 	"strings"
 
 	"olsim/core"
+	"olsim/gen"
 	"olsim/props"
 	"olsim/runner"
 )
 
 // dumpkeys: runs one C01-style history and prints the committed key space grouped by prefix.
-func dumpKeys(seed uint64) {
+func dumpKeys(seed uint64, names string) {
 	out := runner.SilenceStdout()
 	p := props.Registry["C01"].(*props.ClusterProp)
 	rng := rand.New(rand.NewSource(int64(seed)))
-	su := p.MakeSetup(rng, "quick", seed)
-	su.Replicas = su.Replicas[:1]
-	tr := &core.Trace{Property: "C01", Seed: seed, Knobs: su.Knobs, Replicas: su.Replicas}
-	_ = tr
-	ro := props.RunForDump(p, seed, func(e *core.Engine) {
+	_ = rng
+	p2 := &props.ClusterProp{Id: "DUMP", MakeSetup: func(rng *rand.Rand, tier string, seed uint64) *props.Setup {
+		su := p.MakeSetup(rng, tier, seed)
+		su.Replicas = su.Replicas[:1]
+		su.Policy = nil
+		su.Blocks = 40
+		if names != "" {
+			su.Gens = gen.ByName(strings.Split(names, ",")...)
+		}
+		return su
+	}, MakeOracle: func(e *core.Engine, tr *core.Trace) props.Oracle { return props.NopOracle{} }}
+	ro := props.RunForDump(p2, seed, func(e *core.Engine) {
 		d := e.C.Ref().Dump()
 		groups := map[string][]core.KV{}
 		for _, kv := range d {
